@@ -38,11 +38,12 @@ ALL_FAMILIES = list(FAMILIES)
 
 
 class Outcome(object):
-    __slots__ = ("kind", "value", "type", "desc", "err", "msg", "handle")
+    __slots__ = ("kind", "value", "type", "desc", "err", "msg", "handle", "lazy_len")
 
     def __init__(self, kind, value=None, type=None, desc=None, err=None, msg=None, handle=None):
         self.kind, self.value, self.type, self.desc, self.err, self.msg, self.handle = \
             kind, value, type, desc, err, msg, handle
+        self.lazy_len = None      # (length a lazy result announced, length of its materialisation)
 
     def brief(self):
         if self.kind == "value":
@@ -282,10 +283,22 @@ def gen_op(rng, T, v, cfg, families=None):
 def read(b, h, want_type=True):
     """Content handle -> Outcome(value)"""
     txt = b.describe_text(h)
+    lazy_len = None
     if '"c":"VirtualArray"' in txt:       # lazy results are read through their materialisation (C18)
         from vlib import bridge_virtual
+        announced = None
+        if txt.startswith('{"c":"VirtualArray"'):
+            try:
+                announced = b.length(h)
+            except AkError:
+                announced = None
         h = bridge_virtual.materialize(b, h)
         txt = b.describe_text(h)
+        if announced is not None:
+            try:
+                lazy_len = (announced, b.length(h))
+            except AkError:
+                lazy_len = None
     d = json.loads(txt)
     t = None
     if want_type and d["c"] not in ("None", "Record") and not d.get("scalar"):
@@ -297,7 +310,9 @@ def read(b, h, want_type=True):
         v = model.value(d)
     except Exception as e:     # an invalid result the model cannot follow (reported by the closure monitor)
         v = "<unreadable result: %s>" % type(e).__name__
-    return Outcome("value", v, t, d, handle=h)
+    out = Outcome("value", v, t, d, handle=h)
+    out.lazy_len = lazy_len
+    return out
 
 
 def read_index(b, ih):
